@@ -1,5 +1,5 @@
 (* C09 - rsass's own CSS output reads back as the same stylesheet.  Theorems only.
-   What is proved is the leaf the statement singles out: Display of a quoted
+   What is proved is the leaf the statement singles out (for the reader of rsass 4637bd2): Display of a quoted
    CssString (css/string.rs, model Model/CssStr.v) against the quoted-string
    reader of the plain-CSS parser (parser/css/strings.rs, model Model/CssRead.v).
    The stylesheet-level round trip is decided on generated stylesheets only. *)
@@ -8,37 +8,34 @@ From RV Require Import Base.Text Model.CssStr Model.CssRead Proofs.C09.
 Import ListNotations.
 Local Open Scope N_scope.
 
-(* for ALL code-point lists without the string's own quote character, in either
-   quoting: printing, reading back and printing again gives the same text, and the
-   reader consumes exactly the string *)
-Theorem C09_strings_partial : forall k v, k <> QNone -> lacks (qchar k) v = true ->
+(* for ALL code-point lists without backslash and private-use characters - the string's own
+   quote character INCLUDED, any number of times - and either quoting: printing, reading back
+   and printing again gives the same text, and the reader consumes exactly the string *)
+Theorem C09_strings_roundtrip : forall k v, k <> QNone -> forallb simple v = true ->
   reprint (mkStr v k) = Some (css_display (mkStr v k), []).
 Proof. exact roundtrip. Qed.
-Print Assumptions C09_strings_partial.
+Print Assumptions C09_strings_roundtrip.
 
-(* what Display writes for such a string has no quote character inside: the reader's
-   `is_not(quote)` run is the whole body *)
-Theorem C09_body_has_no_quote : forall q v, (q = 34 \/ q = 39) -> lacks q v = true ->
-  lacks q (flat_map (display_char (Some q)) v) = true.
-Proof. intros q v Hq Hv. apply plain_lacks, body_plain; assumption. Qed.
-Print Assumptions C09_body_has_no_quote.
+(* the same through the value parser, which re-quotes with pref_dquotes, for the quoting
+   rsass itself chooses (pref_dquotes is idempotent on it) *)
+Theorem C09_strings_value_roundtrip : forall k v, k <> QNone -> forallb simple v = true ->
+  pref_dquotes (mkStr v k) = mkStr v k ->
+  reprint_value (mkStr v k) = Some (css_display (mkStr v k), []).
+Proof. exact roundtrip_value. Qed.
+Print Assumptions C09_strings_value_roundtrip.
 
-(* the same through the value parser, which re-quotes with pref_dquotes: a double
-   quoted string without `"`, and a single quoted string with `"` and without `'`
-   (the two forms rsass prints), read back to the same text *)
-Theorem C09_strings_value_partial : forall v,
-  (lacks 34 v = true -> reprint_value (mkStr v QDouble) = Some (css_display (mkStr v QDouble), []))
-  /\ (lacks 39 v = true -> contains 34 v = true ->
-      reprint_value (mkStr v QSingle) = Some (css_display (mkStr v QSingle), [])).
-Proof. intros v. split; [apply roundtrip_value_dq | apply roundtrip_value_sq]. Qed.
-Print Assumptions C09_strings_value_partial.
+(* the reader inverts Display on the body of such a string, whatever follows the closing quote *)
+Theorem C09_reader_inverts_display : forall q v rest, (q = 34 \/ q = 39) -> forallb simple v = true ->
+  read_body q (flat_map (display_char (Some q)) v ++ q :: rest) = Some (v, rest).
+Proof. exact read_display. Qed.
+Print Assumptions C09_reader_inverts_display.
 
-(* F12: the string a, double quote, b - printed with the quote escaped - is read back as
-   `a\` followed by garbage: the full statement is false *)
-Theorem C09_refuted_escaped_quote : exists v,
-  reprint (mkStr v QDouble) <> Some (css_display (mkStr v QDouble), []).
-Proof. exists [97;34;98]. rewrite refuted_quote. discriminate. Qed.
-Print Assumptions C09_refuted_escaped_quote.
+(* the former F12 witness reads back (rsass 4637bd2) *)
+Theorem C09_escaped_quote_reads_back :
+  reprint_value (mkStr [97;34;98;39;99] QDouble) = Some (css_display (mkStr [97;34;98;39;99] QDouble), []).
+Proof. exact escaped_quote_reads_back. Qed.
+Print Assumptions C09_escaped_quote_reads_back.
 
-Example hyp_ok : QDouble <> QNone /\ lacks (qchar QDouble) [97;39;233;128512;57344;92] = true.
-Proof. split; [discriminate | reflexivity]. Qed.
+Example hyp_ok : QDouble <> QNone /\ forallb simple [97;34;39;233;128512] = true
+  /\ pref_dquotes (mkStr [97;34;39] QDouble) = mkStr [97;34;39] QDouble.
+Proof. repeat split; try discriminate; reflexivity. Qed.
